@@ -41,6 +41,7 @@ keyed on it cannot be steered by anything the client controls.
 from __future__ import annotations
 
 import base64
+import hashlib
 import os
 import secrets
 import struct
@@ -411,7 +412,7 @@ class _ResolvedCall:
     :meth:`StreamState.bind_call_state` documents.
     """
 
-    __slots__ = ("call_state", "input_schema", "output_schema", "stream_id")
+    __slots__ = ("call_state", "input_schema", "output_schema", "stream_id", "token_digest")
 
     def __init__(
         self,
@@ -419,11 +420,19 @@ class _ResolvedCall:
         output_schema: pa.Schema,
         input_schema: pa.Schema,
         stream_id: str,
+        call_token: bytes = b"",
     ) -> None:
         self.call_state = call_state
         self.output_schema = output_schema
         self.input_schema = input_schema
         self.stream_id = stream_id
+        # Digest of the sealed token these contents were parsed from (or minted
+        # into); a cached entry only ever answers for that very token.
+        self.token_digest = hashlib.sha256(call_token).digest()
+
+    def parsed_from(self, call_token: bytes) -> bool:
+        """Whether ``call_token`` is, byte for byte, the token this entry stands for."""
+        return secrets.compare_digest(hashlib.sha256(call_token).digest(), self.token_digest)
 
 
 class _CallStateCache:
